@@ -739,7 +739,15 @@ async fn run_lazy_case(header: &[&str], ops: &[String], out: &mut Vec<String>) {
     let buf = kv(header[6], "buf");
     let dup = kv(header[7], "dup");
     let dseed = kv(header[8], "dseed");
-    let cfg = chmux::Cfg { connection_timeout: None, chunk_size: chunk as u32, receive_buffer: buf as u32, ..Default::default() };
+    // optional: max_data_size (above it chmux forwarders stream a message chunk by chunk)
+    let mds = header.get(9).map(|s| kv(s, "mds")).unwrap_or(524_288);
+    let cfg = chmux::Cfg {
+        connection_timeout: None,
+        chunk_size: chunk as u32,
+        receive_buffer: buf as u32,
+        max_data_size: mds,
+        ..Default::default()
+    };
     let mut cs = Vec::new();
     for (a, b) in &conns {
         cs.push(build_conn(*a, *b, &cfg, dup).await);
@@ -1030,8 +1038,14 @@ fn gen_lazy_case(r: &mut Rng, name: &str, stats: &mut Stats, long: bool) -> (Str
     let chunk = *r.pick(CHUNKS);
     let buf = *r.pick(BUFS);
     let dup = *r.pick(&[64usize, 300, 4096, 65536]);
-    let header = format!("case {name} lazy {neps} {} chunk={chunk} buf={buf} dup={dup} dseed={}", conns_text(&conns), r.below(1_000_000));
     let kind = if r.bool() { "v" } else { "b" };
+    // blobs: a small max_data_size makes the forwarding hops stream the blob frame by frame
+    let mds = if kind == "b" { *r.pick(&[256usize, 1024, 524_288]) } else { 524_288 };
+    let header = format!(
+        "case {name} lazy {neps} {} chunk={chunk} buf={buf} dup={dup} dseed={} mds={mds}",
+        conns_text(&conns),
+        r.below(1_000_000)
+    );
     // sizes around the chunk size, the receive buffer and multiples
     let base = *r.pick(&[0usize, 1, chunk - 1, chunk, chunk + 1, 2 * chunk, 2 * chunk + 1, buf - 1, buf, buf + 1, 3 * buf + 7, 5 * chunk + 3]);
     let size = if long && r.chance(1, 4) { base + r.below(20_000) as usize } else if r.chance(1, 5) { base + r.below(3000) as usize } else { base };
@@ -1079,6 +1093,9 @@ fn gen_lazy_case(r: &mut Rng, name: &str, stats: &mut Stats, long: bool) -> (Str
         stats.hit("lazy_forward_after_fetch");
     }
     stats.hit(&format!("lazy_kind_{kind}"));
+    if kind == "b" {
+        stats.hit(&format!("lazy_blob_{}", if size > mds { "streamed_by_forwarders" } else { "forwarded_whole" }));
+    }
     stats.hit(&format!("lazy_hops_{hops}"));
     stats.hit(&format!("lazy_size_vs_chunk_{}", if size < chunk { "below" } else if size == chunk { "equal" } else { "above" }));
     stats.hit(&format!("lazy_size_vs_buf_{}", if size < buf { "below" } else if size == buf { "equal" } else { "above" }));
